@@ -206,6 +206,48 @@ def dark_sky(ck):
     ck.direct("%s/assigns.params" % qn, not eff, "frame", "effect-log(symbolic execution)", clause="the time array is not modified")
 
 
+class Body(Stub):
+    """astropy.coordinates.get_body abstracted: a distance from the Earth's centre and an angular separation to the other body, both
+    functions of the instant"""
+
+    def __init__(self, dist, sep):
+        self.distance, self._sep = dist, sep
+
+    def separation(self, other):
+        return self._sep
+
+
+def moon_phase(ck):
+    """the phase angle is the Sun-Moon-Earth angle (vertex at the Moon): from the triangle Earth (origin), Moon at distance d_m, Sun at
+    distance d_s, elongation e between them, tan(i) = d_s sin e / (d_m - d_s cos e), i in [0, pi]"""
+    import astropy.coordinates
+
+    from nuspacesim.simulation.geometry.too import ToOEvent
+    from nssvc import prover
+
+    qn = "too:ToOEvent.moon_phase_angle"
+    ax = Axis("ev")
+    ds, dm, e = sp.Symbol("d_sun", positive=True), sp.Symbol("d_moon", positive=True), sp.Symbol("elongation", positive=True)
+    ax.syms.update((ds, dm, e))
+    bodies = {"sun": Body(A((ax,), ds, sp.true), A((ax,), e, sp.true)), "moon": Body(A((ax,), dm, sp.true), A((ax,), e, sp.true))}
+    it = harness.make_interp({astropy.coordinates.get_body: lambda interp, name, time, *a, **k: bodies[name]})
+    paths = it.explore(lambda: (ToOEvent.moon_phase_angle, [A((ax,), sp.Symbol("t", real=True), sp.true, origin="time")], {}))
+    ck.add_functions(it)
+    r = paths[0].result if len(paths) == 1 and paths[0].kind == "return" else None
+    r = getattr(r, "value", r)
+    if not isinstance(r, A):
+        o = ck.ob("%s/exec" % qn, "exec")
+        o.note = "; ".join("%s %s" % (p_.kind, p_.exc) for p_ in paths[:3])
+        ck._undecided(o, lambda: native_dark(ck))
+        return
+    # vertex at the Moon: vectors Moon->Earth = (-d_m, 0), Moon->Sun = (d_s cos e - d_m, d_s sin e); angle = atan2(|cross|, dot)
+    # (both components divided by d_m > 0, which does not change the angle)
+    want = sp.atan2(ds * sp.sin(e), dm - ds * sp.cos(e))
+    st, wit = prover.identity_decide(r.e, want, boxes={ds: (300.0, 500.0), dm: (0.9, 1.1), e: (0.01, 3.13)}, seed=ck.seed)
+    ck.direct("%s/post.triangle" % qn, True if st == "proved" else (False if st == "refuted" else None), "post", "sympy normal form / 40-digit evaluation", witness=wit,
+              clause="the Moon's phase angle is the angle Sun-Moon-Earth of the triangle with sides d_sun, d_moon and the elongation between them", replay_out=None if st != "refuted" else native_dark(ck))
+
+
 # ------------------------------------------------------------------------------------------
 # native (bounded) side: real astropy
 # ------------------------------------------------------------------------------------------
@@ -237,11 +279,12 @@ def native_geometry(ck, model=None):
     R = R_earth.to(u.km).value
     n = 0
     # the last three settings make the 42-degree ceiling, not the limb limit, the active bound on the emergence angle
-    for alt, limb in ((33.0, np.radians(7.0)), (525.0, np.radians(20.0)), (400.0, np.radians(3.0)), (525.0, np.radians(30.0)), (33.0, np.radians(40.0)), (2000.0, np.radians(20.0))):
+    for alt, limb in ((33.0, np.radians(7.0)), (525.0, np.radians(20.0)), (400.0, np.radians(3.0)), (525.0, np.radians(30.0)), (33.0, np.radians(40.0)), (2000.0, np.radians(20.0)),
+                      (39.0, 0.0), (131.0, 0.0), (13.0, 0.0), (525.0, 0.0)):  # limb angle 0: the admitted interval [0, limit) is empty
         cfg = native_config(alt, limb)
         g = RegionGeomToO(cfg)
         t0 = g.too_source.eventtime
-        for N in ((1, 2, 7, 49, 98, 103, 107, 196, 197, 1000, 4321) if limb < np.radians(25.0) and alt < 1000 else (997, 4321)):
+        for N in ((1, 2, 7, 49, 98, 103, 107, 196, 197, 1000, 4321) if 0 < limb < np.radians(25.0) and alt < 1000 else ((997, 4321) if limb > 0 else (720,))):
             n += 1
             out = g(N)
             beta, theta, L, vt = out
@@ -259,7 +302,7 @@ def native_geometry(ck, model=None):
             aH = 0.5 * np.pi - np.arccos(R / H)
             with np.errstate(all="ignore"):
                 b = np.arccos(np.clip((H / R) * np.sin(nad), -1, 1))
-                lim = min(np.radians(42.0), np.arccos((H / R) * np.sin(aH - limb)))
+                lim = min(np.radians(42.0), float(np.arccos(min((H / R) * np.sin(aH - limb), 1.0))))  # (a cosine: at most 1, whatever the rounding)
                 keep = (nad < aH) & (b < lim)
             if not (len(beta) == keep.sum() == len(theta) == len(L) == len(vt)):
                 return {"violated": True, "input": {"N": N, "altitude": alt}, "observed": {"kept": int(len(beta)), "expected": int(keep.sum())}, "clause": "kept instants"}
@@ -283,7 +326,20 @@ def native_dark(ck, model=None):
         t = ToOEvent(cfg)
         times = t.eventtime + TimeDelta(np.linspace(0, 27 * 86400.0, 600 if ck.tier == "quick" else 4000), format="sec")
         got = np.asarray(t.sun_moon_cut(times))
-        sun, moon, ph = t.get_sun(times).alt.rad, t.get_moon(times).alt.rad, t.moon_phase_angle(times).value
+        sun, moon = t.get_sun(times).alt.rad, t.get_moon(times).alt.rad
+        # the phase angle from the positions themselves: angle at the Moon between the directions to the Sun and to the Earth
+        import astropy.coordinates as _ac
+
+        sv, mv = _ac.get_body("sun", times).cartesian.xyz.to_value("km"), _ac.get_body("moon", times).cartesian.xyz.to_value("km")
+        to_sun, to_earth = sv - mv, -mv
+        ph = np.arctan2(np.linalg.norm(np.cross(to_sun, to_earth, axis=0), axis=0), np.sum(to_sun * to_earth, axis=0))
+        ph_code = np.asarray(t.moon_phase_angle(times).value, dtype=float)
+        n += 1
+        if ph_code.shape != ph.shape or not np.allclose(ph_code, ph, rtol=0, atol=2e-5):
+            j = int(np.argmax(np.abs(ph_code - ph))) if ph_code.shape == ph.shape else 0
+            return {"violated": True, "input": {"instant_index": j, "instants": "600 over 27 days from 2022-06-02T01:00"}, "observed": {"moon_phase_angle": float(ph_code[j]) if ph_code.shape == ph.shape else str(ph_code.shape), "Sun-Moon-Earth angle from the body positions": float(ph[j])},
+                    "clause": "the phase angle used by the cut is the Sun-Moon-Earth angle"}
+        ph = ph_code
         want = (sun < sun_cut) & ((moon < moon_cut) | (ph > phase))
         n += len(got)
         if got.shape != want.shape or (got != want).any():
@@ -303,6 +359,7 @@ def run(ck):
     ck.add_file("nuspacesim/simulation/geometry/too.py")
     geometry(ck)
     dark_sky(ck)
+    moon_phase(ck)
     # the cut applies to the optical channel only and only removes events: C03's obligations on the target estimator
     from contracts import C03
 
